@@ -5,7 +5,7 @@ executed; the scratch copy lives outside /repo and /verif and is deleted afterwa
 import glob
 import importlib
 import json
-import os
+import os, re
 import shutil
 import subprocess
 
@@ -15,7 +15,7 @@ from .flatten import flatten_program
 from .report import Ctx, VERIF
 
 
-MAX_VARIANTS = int(os.environ.get("VERIF_SELFTEST_MAX", "8"))
+MAX_VARIANTS = int(os.environ.get("VERIF_SELFTEST_MAX", "10"))
 
 
 def _patches(prop):
@@ -36,8 +36,16 @@ def _patches(prop):
     # keep at least the equivalent variants in the mix
     eq = [h for h in hand if h[2] == "equiv"]
     br = [h for h in hand if h[2] == "break"]
-    out = own + eq + br + other
-    return out[:MAX_VARIANTS]
+    # the latest seeded rounds first (they were written against the strongest version of the check), and never so many of
+    # them that the equivalent variants drop out: a check must be shown to fire AND to stay silent
+    def rnd(name):
+        mm = re.search(r"-R(\d)[AB]$", name)
+        return -(int(mm.group(1)) if mm else 1)
+    own.sort(key=lambda x: (rnd(x[0]), x[0]))
+    n_eq = min(len(eq), 4)
+    first = own[:MAX_VARIANTS - n_eq] + eq[:n_eq]
+    rest = [x for x in own + eq + br + other if x not in first]
+    return (first + rest)[:MAX_VARIANTS]
 
 
 def run_selftests(ctx, prop, limit=None):
